@@ -137,7 +137,7 @@ func makeServers(in openapi3.Servers) ([]srv, error) {
 			serverURL = strings.ReplaceAll(serverURL, "{"+sVar+"}", sVal)
 			var varsUpdater varsf
 			if lhs := strings.TrimSuffix(serverURL, server.Variables[sVar].Default); lhs != "" {
-				varsUpdater = func(vars map[string]string) { vars[sVar] = lhs }
+				varsUpdater = func(vars map[string]string) { setServerVar(vars, sVar, lhs) }
 			}
 			svr, err := newSrv(serverURL, server, varsUpdater)
 			if err != nil {
@@ -160,9 +160,7 @@ func makeServers(in openapi3.Servers) ([]srv, error) {
 			portVariable := rest[:rhs]
 			portValue := server.Variables[portVariable].Default
 			serverURL = strings.ReplaceAll(serverURL, "{"+portVariable+"}", portValue)
-			varsUpdater = func(vars map[string]string) {
-				vars[portVariable] = portValue
-			}
+			varsUpdater = func(vars map[string]string) { setServerVar(vars, portVariable, portValue) }
 		}
 
 		svr, err := newSrv(serverURL, server, varsUpdater)
@@ -176,6 +174,14 @@ func makeServers(in openapi3.Servers) ([]srv, error) {
 	}
 
 	return servers, nil
+}
+
+// setServerVar reports the value of a server variable among the path parameters,
+// unless the matched path template has a variable of that name: the path's value wins.
+func setServerVar(vars map[string]string, name, value string) {
+	if _, ok := vars[name]; !ok {
+		vars[name] = value
+	}
 }
 
 func newSrv(serverURL string, server *openapi3.Server, varsUpdater varsf) (srv, error) {
